@@ -42,18 +42,18 @@ FaultClasses == {"unknown", "toomany", "strforid", "badident", "toonew_block", "
 MultiCases == {[k |-> "multi", faults |-> F] : F \in {G \in SUBSET FaultClasses : Cardinality(G) \in {2, 3}}}
 \* C07: an unknown element between the sub-elements of every block that admits optional sub-elements
 Payloads == {"kw0", "kw_num", "kw_str_ident", "kw3", "blk_empty", "blk_scalars", "blk_nested1", "blk_nested2",
-             "blk_known_inside", "blk_comment", "kw_comment", "blk_unbalanced_inner_kw"}
+             "blk_known_inside", "blk_comment", "kw_comment", "blk_unbalanced_inner_kw", "kw_with_block", "kw_with_two_blocks"}
 SkipCases(e) == {[k |-> "skip", e |-> e, nkids |-> n, at |-> a, payload |-> p, next |-> "-"] : n \in 0..2, a \in 0..2, p \in Payloads}
                 \* the stop list: a keyword payload directly in front of EVERY sub-element of the block
                 \cup {[k |-> "skip", e |-> e, nkids |-> 1, at |-> 0, payload |-> p, next |-> Elem[e].kids[i].tag] :
-                         i \in 1..Len(Elem[e].kids), p \in {"kw0", "kw_num"}}
+                         i \in 1..Len(Elem[e].kids), p \in {"kw0", "kw_num", "kw_with_block"}}
 
 \* C01 / C02: value classes per parameter type (the literal catalogue; the driver computes the concrete
 \* text, e.g. "max+1" of uint = 65536, and which types it fits - TLC integers are 32 bit)
 IntClasses == {"min-1", "min", "-1", "0", "max", "max+1", "hex0", "hexmax", "hexmax+1", "hexu64max", "hexover", "HEXPREFIX", "plus"}
 FloatClasses == {"0", "-0.0", "0.1", "1e10", "1e-4", "123456000000", "5e-324", "1e999", "-1e999", "hex", "dot1", "1dot", "exp+", "16777217", "0.30000000000000004", "f32exact", "f32exact2", "f32exact_neg"}
 StringClasses == {"empty", "ascii", "esc_quote", "dbl_quote", "esc_apos", "esc_backslash", "esc_n", "esc_r", "esc_t", "backslash_last",
-                  "nonbmp", "latin", "slashes", "apos_raw", "unknown_escape"}
+                  "nonbmp", "latin", "slashes", "apos_raw", "unknown_escape", "esc_latin", "esc_nonbmp", "path", "esc_seq_after_backslash"}
 IdentClasses == {"a", "dotted", "underscore", "len1024", "len1025", "digitfirst", "brackets"}
 ValueCases ==
     {[k |-> "value", type |-> t, cls |-> c] : t \in {"int", "uint", "long", "ulong", "uint64"}, c \in IntClasses}
